@@ -18,7 +18,7 @@ func init() {
 	register(&Check{
 		ID: "C19", Level: "other", Patterns: []string{"./internal/agent"},
 		Technique: "CFG liveness under falsified allow predicates, value flow of the dial address, field write-sets with lock regions, control dependence",
-		Explain: "Decides on the SSA of internal/exit and internal/agent: (R1) every TCP dial of package exit is unreachable when both the domain-pattern predicate and the CIDR predicate are false, the dialled address is built from the very IP value that was checked (no second resolution of the requested name), and a domain-allowed flag handed over as a parameter is the domain predicate applied to the same requested address; (R2) the CIDR predicate returns true only after a Contains hit of the requested IP on an element of AllowedRoutes, and the domain predicate returns true only on an exact match or on a single-label wildcard match; (R3) AllowedRoutes is written only by AddAllowedRoute/RemoveAllowedRoute under the routes write lock (constructor literals aside), read under that lock, and the mutators are called only next to the dynamic-route operations; (R4) ManageRoute adds to the allow-list only after AddDynamicRoute succeeded, removes from it whenever RemoveDynamicRoute succeeded, with the same network value, and the allow-list has set semantics (idempotent add, or remove-all, or add skipped for an existing dynamic route). " +
+		Explain: "Decides on the SSA of internal/exit and internal/agent: (R1) every TCP dial of package exit is unreachable when both the domain-pattern predicate and the CIDR predicate are false, the dialled address is built from the very IP value that was checked (no second resolution of the requested name), and a domain-allowed flag handed over as a parameter is the domain predicate applied to the same requested address; (R2) the CIDR predicate returns true only after a Contains hit of the requested IP on an element of AllowedRoutes, and the domain predicate returns true only on an exact match or on a single-label wildcard match that is anchored at the end of the name (an unanchored occurrence of the pattern inside the name never suffices); (R3) AllowedRoutes is written only by AddAllowedRoute/RemoveAllowedRoute under the routes write lock (constructor literals aside), read under that lock, and the mutators are called only next to the dynamic-route operations; (R4) ManageRoute adds to the allow-list only after AddDynamicRoute succeeded, removes from it whenever RemoveDynamicRoute succeeded, with the same network value, and the allow-list has set semantics (idempotent add, or remove-all, or add skipped for an existing dynamic route) under the same network identity relation as the dynamic-route table (every comparison of two networks in the allow-list mutators compares the key function routing.Manager applies). " +
 			"Not decided: DNS answers changing between requests, UDP/ICMP exits, the correctness of net.IPNet.Contains.",
 		Run: runC19,
 		SelfTests: []SelfTest{
@@ -73,6 +73,32 @@ func init() {
 			{Name: "agent starts the exit with an extra default network", ExpectRule: "C19.R3", ExpectKey: "initial allow-list", Edits: []Edit{
 				{File: agt, Old: "\t\t\tAllowedRoutes:  routes,\n", New: "\t\t\tAllowedRoutes:  append(routes, routing.MustParseCIDR(\"0.0.0.0/0\")),\n"},
 			}},
+			{Name: "wildcard split at the first occurrence of the base (strings.Cut), remainder ignored", ExpectRule: "C19.R2", ExpectKey: "end-anchored", Edits: []Edit{
+				{File: exh, Old: "\t\t\tif strings.HasSuffix(domain, suffix) {\n\t\t\t\t// Count dots before the suffix - should be zero for single-level wildcard\n\t\t\t\tprefix := domain[:len(domain)-len(suffix)]\n\t\t\t\tif !strings.Contains(prefix, \".\") && len(prefix) > 0 {\n\t\t\t\t\treturn true\n\t\t\t\t}\n\t\t\t}\n", New: "\t\t\tif label, _, found := strings.Cut(domain, suffix); found {\n\t\t\t\tif label != \"\" && !strings.Contains(label, \".\") {\n\t\t\t\t\treturn true\n\t\t\t\t}\n\t\t\t}\n"},
+			}},
+			{Name: "wildcard tested with strings.Index instead of a suffix test", ExpectRule: "C19.R2", ExpectKey: "end-anchored", Edits: []Edit{
+				{File: exh, Old: "\t\t\tif strings.HasSuffix(domain, suffix) {\n\t\t\t\t// Count dots before the suffix - should be zero for single-level wildcard\n\t\t\t\tprefix := domain[:len(domain)-len(suffix)]\n\t\t\t\tif !strings.Contains(prefix, \".\") && len(prefix) > 0 {\n\t\t\t\t\treturn true\n\t\t\t\t}\n\t\t\t}\n", New: "\t\t\tif i := strings.Index(domain, suffix); i > 0 {\n\t\t\t\tif !strings.Contains(domain[:i], \".\") {\n\t\t\t\t\treturn true\n\t\t\t\t}\n\t\t\t}\n"},
+			}},
+			{Name: "exact pattern accepted as a mere substring", ExpectRule: "C19.R2", ExpectKey: "end-anchored", Edits: []Edit{
+				{File: exh, Old: "\t\t\tif domain == strings.ToLower(dp.Pattern) {", New: "\t\t\tif strings.Contains(domain, strings.ToLower(dp.Pattern)) {"},
+			}},
+			{Name: "exact pattern accepted as a suffix", ExpectRule: "C19.R2", Edits: []Edit{
+				{File: exh, Old: "\t\t\tif domain == strings.ToLower(dp.Pattern) {", New: "\t\t\tif strings.HasSuffix(domain, strings.ToLower(dp.Pattern)) {"},
+			}},
+			{Name: "allow decisions cached per address survive route removal", ExpectRule: "C19.R2", ExpectKey: "deny-by-default", Edits: []Edit{
+				{File: exh, Old: "\tif len(h.cfg.AllowedRoutes) == 0 {\n\t\treturn false // Deny by default when no routes configured\n\t}\n", New: "\tif c19seen[ip.String()] {\n\t\treturn true\n\t}\n\tif len(h.cfg.AllowedRoutes) == 0 {\n\t\treturn false // Deny by default when no routes configured\n\t}\n"},
+				{File: exh, Old: "// AllowedRouteCount returns the number of allowed routes.", New: "var c19seen = map[string]bool{}\n\n// AllowedRouteCount returns the number of allowed routes."},
+			}},
+			{Name: "allow-list compares networks by raw IP and mask bytes (helper)", ExpectRule: "C19.R4", ExpectKey: "network identity", Edits: []Edit{
+				{File: exh, Old: "\ttarget := network.String()\n\tfor _, route := range h.cfg.AllowedRoutes {\n\t\tif route.String() == target {\n\t\t\treturn\n\t\t}\n\t}\n", New: "\tfor _, route := range h.cfg.AllowedRoutes {\n\t\tif sameNetwork(route, network) {\n\t\t\treturn\n\t\t}\n\t}\n"},
+				{File: exh, Old: "// AllowedRouteCount returns the number of allowed routes.", New: "func sameNetwork(a, b *net.IPNet) bool {\n\treturn a.IP.Equal(b.IP) && a.Mask.String() == b.Mask.String()\n}\n\n// AllowedRouteCount returns the number of allowed routes."},
+			}},
+			{Name: "allow-list removal matches on the address only", ExpectRule: "C19.R4", ExpectKey: "network identity", Edits: []Edit{
+				{File: exh, Old: "\ttarget := network.String()\n\tfor i, route := range h.cfg.AllowedRoutes {\n\t\tif route.String() == target {", New: "\tfor i, route := range h.cfg.AllowedRoutes {\n\t\tif route.IP.String() == network.IP.String() {"},
+			}},
+			{Name: "allow-list add de-duplicates by pointer", ExpectRule: "C19.R4", ExpectKey: "network identity", Edits: []Edit{
+				{File: exh, Old: "\ttarget := network.String()\n\tfor _, route := range h.cfg.AllowedRoutes {\n\t\tif route.String() == target {\n\t\t\treturn\n\t\t}\n\t}\n", New: "\tfor _, route := range h.cfg.AllowedRoutes {\n\t\tif route == network {\n\t\t\treturn\n\t\t}\n\t}\n"},
+			}},
 			// rewrites
 			{Name: "rewrite: allow decision as a named boolean", Edits: []Edit{
 				{File: exh, Old: "\tif !domainAllowed && !h.isAllowed(ip) {", New: "\tallowed := domainAllowed || h.isAllowed(ip)\n\tif !allowed {"},
@@ -104,6 +130,19 @@ func init() {
 			{Name: "rewrite: CIDR predicate through slices.ContainsFunc", Edits: []Edit{
 				{File: exh, Old: "\t\"strings\"\n\t\"sync\"\n", New: "\t\"slices\"\n\t\"strings\"\n\t\"sync\"\n"},
 				{File: exh, Old: "\tfor _, route := range h.cfg.AllowedRoutes {\n\t\tif route.Contains(ip) {\n\t\t\treturn true\n\t\t}\n\t}\n\n\treturn false\n}", New: "\treturn slices.ContainsFunc(h.cfg.AllowedRoutes, func(n *net.IPNet) bool { return n.Contains(ip) })\n}"},
+			}},
+			{Name: "rewrite: suffix anchored through LastIndex and the length of the name", Edits: []Edit{
+				{File: exh, Old: "\t\t\tif strings.HasSuffix(domain, suffix) {\n\t\t\t\t// Count dots before the suffix - should be zero for single-level wildcard\n\t\t\t\tprefix := domain[:len(domain)-len(suffix)]\n\t\t\t\tif !strings.Contains(prefix, \".\") && len(prefix) > 0 {\n\t\t\t\t\treturn true\n\t\t\t\t}\n\t\t\t}\n", New: "\t\t\tif i := strings.LastIndex(domain, suffix); i > 0 && i+len(suffix) == len(domain) {\n\t\t\t\tif !strings.Contains(domain[:i], \".\") {\n\t\t\t\t\treturn true\n\t\t\t\t}\n\t\t\t}\n"},
+			}},
+			{Name: "rewrite: suffix anchored through Cut with an empty remainder", Edits: []Edit{
+				{File: exh, Old: "\t\t\tif strings.HasSuffix(domain, suffix) {\n\t\t\t\t// Count dots before the suffix - should be zero for single-level wildcard\n\t\t\t\tprefix := domain[:len(domain)-len(suffix)]\n\t\t\t\tif !strings.Contains(prefix, \".\") && len(prefix) > 0 {\n\t\t\t\t\treturn true\n\t\t\t\t}\n\t\t\t}\n", New: "\t\t\tif label, rest, found := strings.Cut(domain, suffix); found && rest == \"\" {\n\t\t\t\tif label != \"\" && !strings.Contains(label, \".\") {\n\t\t\t\t\treturn true\n\t\t\t\t}\n\t\t\t}\n"},
+			}},
+			{Name: "rewrite: suffix anchored through CutSuffix", Edits: []Edit{
+				{File: exh, Old: "\t\t\tif strings.HasSuffix(domain, suffix) {\n\t\t\t\t// Count dots before the suffix - should be zero for single-level wildcard\n\t\t\t\tprefix := domain[:len(domain)-len(suffix)]\n\t\t\t\tif !strings.Contains(prefix, \".\") && len(prefix) > 0 {\n\t\t\t\t\treturn true\n\t\t\t\t}\n\t\t\t}\n", New: "\t\t\tif prefix, found := strings.CutSuffix(domain, suffix); found {\n\t\t\t\tif !strings.Contains(prefix, \".\") && len(prefix) > 0 {\n\t\t\t\t\treturn true\n\t\t\t\t}\n\t\t\t}\n"},
+			}},
+			{Name: "rewrite: network identity through a String()-based helper", Edits: []Edit{
+				{File: exh, Old: "\ttarget := network.String()\n\tfor _, route := range h.cfg.AllowedRoutes {\n\t\tif route.String() == target {\n\t\t\treturn\n\t\t}\n\t}\n", New: "\tfor _, route := range h.cfg.AllowedRoutes {\n\t\tif sameRoute(route, network) {\n\t\t\treturn\n\t\t}\n\t}\n"},
+				{File: exh, Old: "// AllowedRouteCount returns the number of allowed routes.", New: "func sameRoute(a, b *net.IPNet) bool { return a.String() == b.String() }\n\n// AllowedRouteCount returns the number of allowed routes."},
 			}},
 		},
 	})
@@ -624,6 +663,44 @@ func c19DomainAtom(mode string) kit.AtomEval {
 				}
 				return x.Op == token.NEQ, true
 			}
+			// nothing is found: Index* yields -1, Count yields 0
+			if mode == "none" {
+				for _, side := range []struct {
+					v, other ssa.Value
+					flip     bool
+				}{{x.X, x.Y, false}, {x.Y, x.X, true}} {
+					name, c := c19StringsCall(side.v)
+					if c == nil {
+						continue
+					}
+					k, isc := kit.ConstInt(side.other)
+					if !isc {
+						continue
+					}
+					val := int64(-1)
+					switch {
+					case name == "Count":
+						val = 0
+					case strings.HasPrefix(name, "Index") || strings.HasPrefix(name, "LastIndex"):
+					default:
+						continue
+					}
+					op := x.Op
+					if side.flip {
+						op = flipCmp(op)
+					}
+					ord := 0
+					if val < k {
+						ord = -1
+					} else if val > k {
+						ord = 1
+					}
+					switch op {
+					case token.EQL, token.NEQ, token.LSS, token.LEQ, token.GTR, token.GEQ:
+						return cmpHolds(op, ord), true
+					}
+				}
+			}
 			// Count / Index forms of the dot test
 			if mode == "multi" {
 				for _, side := range []struct {
@@ -836,6 +913,10 @@ func (cx *c19Ctx) ruleR2() {
 		r.Decide(bad == "", "C19.R2", fname+" single-label wildcard", p.Pos(m.Pos()),
 			"a name whose part in front of the wildcard base contains a dot is not accepted",
 			"the return at "+bad+" can yield true for a name with several labels in front of the wildcard base: *.example.com also permits a.b.example.com, beyond the documented single-level pattern")
+		bad = trueReturn(kit.LiveUnder(m, cx.unanchoredAtom(m)))
+		r.Decide(bad == "", "C19.R2", fname+" end-anchored match", p.Pos(m.Pos()),
+			"an occurrence of the pattern inside the name, with no relation anchored at the end of the name, is not accepted",
+			"the return at "+bad+" can yield true when the pattern's base merely occurs somewhere in the name (substring / first-occurrence search) and nothing ties it to the end of the name: db.corp.example.attacker.test matches *.corp.example and the exit dials whatever that foreign name resolves to")
 	}
 }
 
@@ -1269,4 +1350,5 @@ func (cx *c19Ctx) ruleR4() {
 	}
 	r.Decide(ok, "C19.R4", kit.FuncName(cx.add)+" set semantics", p.Pos(cx.add.Pos()), how,
 		"re-adding an existing dynamic route (metric update) appends a second copy to AllowedRoutes while RemoveAllowedRoute deletes one match: after add, add, remove of the same CIDR the route is gone but isAllowed still permits its destinations")
+	cx.ruleIdentity()
 }
